@@ -79,7 +79,7 @@ Proof.
     + rewrite app_length. cbn [length]. lia.
 Qed.
 
-Lemma add_bit_step s bits c : bsw_holds s bits ->
+Lemma add_bit_step s bits (c : bool) : bsw_holds s bits ->
   let tb := N.of_nat (length bits) / 8 in
   let r1 := if len (bw_rev s) <=? tb then 0 :: bw_rev s else bw_rev s in
   (len r1 <=? tb) = false /\
@@ -114,7 +114,7 @@ Proof.
     rewrite Hr, Hpre, rev_app_distr. cbn [rev app or_at_rev].
     eexists; split; [reflexivity|]. split.
     + unfold bsw_buffer. cbn [bw_rev rev]. rewrite rev_involutive, Hsnoc, Hlbb.
-      do 2 f_equal. destruct c; [apply lor_pow2_high; exact Hx|apply N.lor_0_r].
+      do 2 f_equal. destruct c; [apply lor_pow2_high; exact Hx|rewrite N.lor_0_r; lia].
     + cbn [bw_lbb]. rewrite app_length. cbn [length]. lia.
 Qed.
 
@@ -126,7 +126,9 @@ Proof.
   induction bn; intros n L H.
   - destruct L; [cbn [length] in H; lia|reflexivity].
   - destruct L as [|x L]; [cbn [length] in H; lia|].
-    cbn [length] in H. cbn [nth]. rewrite <- (IHbn n L) by lia. reflexivity.
+    cbn [length] in H.
+    change (firstn (S n) (skipn bn L) = nth bn L d :: firstn n (skipn (S bn) L)).
+    apply IHbn. lia.
 Qed.
 
 Lemma add_bits_loop_holds : forall n bn data sb sbit s bits,
@@ -279,12 +281,9 @@ Proof.
   assert (Hk : length (bytes_of_bits (firstn k bits)) = (length bits / 8)%nat).
   { rewrite bob_length, firstn_length_le by (subst k; lia). subst k. lia. }
   unfold take, drop. rewrite Nat2N.id. rewrite (bob_split bits). fold k.
-  rewrite <- Hk at 2.
-  rewrite <- (Nat.add_0_r (length (bytes_of_bits (firstn k bits)))) at 2.
-  rewrite firstn_app_2, firstn_O, app_nil_r.
+  rewrite (firstn_app_exact _ _ _ Hk), (skipn_app_exact _ _ _ Hk).
   eexists; split; [reflexivity|]. split.
-  - unfold bsw_buffer. cbn [bw_rev]. rewrite rev_involutive.
-    rewrite <- Hk, skipn_app, Nat.sub_diag, skipn_O, skipn_all. reflexivity.
+  - unfold bsw_buffer. cbn [bw_rev]. apply rev_involutive.
   - cbn [bw_lbb]. rewrite Hl, skipn_length. subst k. lia.
 Qed.
 
